@@ -15,6 +15,10 @@ EXTRA = {  # other checks that are expected to notice the change as well
     "C01_m1": ["C09"], "C02_m2": ["C10"], "C03_m1": ["C04"], "C03_m2": ["C04"], "C04_m1": ["C03"], "C04_m2": ["C16", "C08"], "C04_m3": ["C01"], "C05_m3": ["C08"],
     "C08_m1": ["C14"], "C08_m2": ["C16"], "C08_m3": ["C03"], "C09_m1": ["C01"], "C11_m2": ["C15"], "C11_m3": ["C08"], "C14_m1": ["C08"],
     "C14_m2": ["C08"], "C14_m3": ["C08"], "C15_m3": ["C11"], "C16_m1": ["C08"], "C16_m2": ["C13"], "C20_m3": ["C16"],
+    # second round
+    "C01_r2m1": ["C12"], "C01_r2m2": ["C11", "C15"], "C01_r2m3": ["C11", "C08"], "C02_r2m2": ["C10"], "C04_r2m3": ["C03"], "C05_r2m1": ["C16"],
+    "C07_r2m1": ["C09"], "C08_r2m2": ["C11"], "C08_r2m3": ["C04", "C01"], "C11_r2m3": ["C15", "C08"], "C12_r2m1": ["C02"], "C15_r2m2": ["C11"],
+    "C16_r2m1": ["C05"], "C16_r2m3": ["C20"], "C13_r2m2": ["C16"],
 }
 
 
